@@ -5,26 +5,368 @@ import vlib
 META = dict(
     property_id='C17',
     design_ref='DESIGN.md section 4, C17',
-    technique=('Coq proof (invariants over all interleavings of lock-granularity steps of the event-loop bookkeeping and of the '
-               'thread-pool queue) + extracted-model correspondence against the real io_service / thread_pool driven by scripts'),
+    technique=('Coq proof (invariants over all interleavings of lock-granularity steps of the event-loop bookkeeping, of the composite '
+               'async_read_some/async_write_some layer and of the thread-pool queue) + guard/constant leafs regenerated from the source by '
+               'cxx2v with Link lemmas + extracted-model correspondence against the real io_service / stream_socket / thread_pool driven by scripts'),
     level_text=('Theorems in coq/C17/Props.v over an executable model of booster::aio::event_loop_impl at lock granularity (one step = one '
                 'critical section; any list of steps = any interleaving of any number of threads): token conservation (each submitted '
                 'handler is in exactly one of descriptor table / timer table / deferred setter / dispatch queue / being executed / log / '
                 'dropped-by-API, once), hence at most once; exactly once at quiescence; completion codes (cancel => canceled, timer success '
-                'only when clock >= deadline, bad descriptor => EBADF); no lost wake-up (the loop never blocks with work queued); handlers '
-                'are only logged by the loop thread steps; thread pool: a job runs at most once, cancel returns true iff it removed a queued '
-                'job which then never runs, an exception leaves the worker alive. The model is tied to the code by running the extracted '
-                'model and the real io_service (epoll, poll and select reactors; deadline_timer, stream_socket/basic_io_device objects; '
-                'virtual clock and interposed poll so that operations are issued before the loop runs, from handlers, and while the loop '
-                'is polling) and the real thread_pool on the same generated scripts; the oracle checks exactly-once and the allowed codes '
-                'on the implementation output alone.'),
-    level_note=('Trusted: Coq kernel; extraction; the hand model of io_service.cpp/thread_pool.cpp (tied by correspondence only: the code is '
-                'not loop-free integer code, so no cxx2v leaf functions); that booster::recursive_mutex makes the critical sections atomic; the '
-                'kernel interfaces of the reactors; select_interrupter (exercised, not modelled beyond a woken bit). Real thread interleavings '
-                'are only sampled (stress cases), the proof covers them at model level.'),
+                'only when clock >= deadline, bad descriptor => EBADF); no lost wake-up for queue, stop and timers (the poll never extends '
+                'beyond the deadline of an armed timer unless the self-pipe was written); a loop thread left alone invokes every queued '
+                'handler in the next run_one, queues a due timer in the next run_one and invokes it in the one after; under arbitrary interference '
+                'by other threads (everything except stop/reset) a queued handler, a due timer, an in-place cancel and a queued pool job still '
+                'complete once the loop thread / worker has taken the entries in front of them; cancel_io_events '
+                'completes both armed directions with canceled; composite operations (async_read_some/async_write_some through '
+                'reader_some/writer_some): the user handler is called at most once, exactly once at quiescence, with the error of a failed '
+                'wait; thread pool: a job runs at most once, cancel returns true iff it removed a queued job which then never runs, an '
+                'exception leaves the worker alive and the job is not re-run, a lone worker runs every queued job FIFO whatever throws, '
+                'nothing is dequeued after stop(), jobs queued at / posted after stop() never run, stop() can return only when no worker '
+                'holds a job. Tie: every guard condition of post/stop/set_event/set_timer_event/cancel_timer_event/run_one, the event-mask '
+                'arithmetic of the readiness dispatch, the worker-loop and cancel tests of thread_pool, the would-block tests of '
+                'async_read_some/async_write_some/reader_some/writer_some and the constants io_events::in/out/err, reactor::use_*, '
+                'invalid_socket are lifted from the current source into a tiny TU, translated by cxx2v (coq/gen/Gen_C17_loop.v) and proved '
+                'equal to the model guards in coq/C17/Link.v (the statements around them are matched as rigid templates); the model is run '
+                'against the real io_service (epoll, poll, select; deadline_timer, stream_socket objects; virtual clock and interposed poll so '
+                'that operations are issued before the loop runs, from handlers, and while the loop is polling) and the real thread_pool '
+                '(including stop() while a job is running) on the same generated scripts; the oracle checks exactly-once, the allowed codes, '
+                'no sleep past a timer deadline and the stop() guarantees on the implementation output alone.'),
+    level_note=('Trusted: Coq kernel; extraction; tools/cxx2v.py + clang AST for the lifted leafs, the textual lifting and rigid templates in '
+                'checks/C17.py (gen_leaf_tu); the hand model of the control flow around the guards (tied by correspondence); that '
+                'booster::recursive_mutex / booster::mutex make the critical sections atomic; the kernel interfaces of the reactors; '
+                'select_interrupter (exercised, not modelled beyond a woken bit). Real thread interleavings are only sampled (stress cases), '
+                'the proof covers them at model level. The composite layer of the proofs (CompDefs.v) and the composite operations of the '
+                'script interpreter (Defs.v comp_start/after_exec) implement the same rule but are not formally linked.'),
 )
 
-GEN = {}
+# ----------------------------------------------------------------------------------------------------
+# T-tie: guard conditions, bit arithmetic and constants of event_loop_impl lifted from the CURRENT source into a tiny TU
+# ----------------------------------------------------------------------------------------------------
+LEAF_TU = os.path.join(vlib.WORK, 'C17', 'C17_leafs.cpp')
+LEAF_PROBLEMS = []
+
+# non-identifier atoms of the guard expressions -> parameter names (longest first); identifiers (polling_, stop_, counter,
+# point, now) are parameters under their own name
+ATOMS = [
+    ('timer_events_index_.at(event_id)==timer_events_.end()', 'slot_free'),
+    ('f.cancelation_is_needed_with_data_mutex_locked()', 'needed'),
+    ('self_->dispatch_queue_.empty()', 'qempty'),
+    ('self_->map_[fd].current_event', 'cur'),
+    ('timer_events_.begin()->first', 'head'),
+    ('poll_error.value()!=EINTR', 'not_eintr'),
+    ('dispatch_queue_.empty()', 'qempty'),
+    ('timer_events_.empty()', 'tempty'),
+    ('cont.current_event', 'cur'),
+    ('cont.readable', 'hasrd'),
+    ('cont.writeable', 'haswr'),
+    ('reactor_.get()', 'reactor_get'),
+    ('evs[i].events', 'events'),
+    ('ptime::hours(1)', '3600000LL'),
+    ('ptime::zero', '0LL'),
+]
+LEAF_NAMES = []
+
+
+def _strip(src):
+    src = re.sub(r'/\*.*?\*/', '', src, flags=re.S)
+    src = re.sub(r'//[^\n]*', '', src)
+    return re.sub(r'\s+', '', src)
+
+
+def _body(txt, head):
+    """ws-free text of the brace-balanced block that follows the (regex) head; '' if absent"""
+    m = re.search(head, txt)
+    if not m:
+        return ''
+    i = m.end()
+    if txt[i - 1] != '{':
+        return ''
+    d, j = 1, i
+    while j < len(txt) and d:
+        d += {'{': 1, '}': -1}.get(txt[j], 0)
+        j += 1
+    return txt[i:j - 1] if d == 0 else ''
+
+
+def _tmpl(s):
+    """template -> regex: literal ws-free text with <name> holes (a hole matches a brace/semicolon-free expression)"""
+    out, i = '', 0
+    for m in re.finditer(r'<([a-z][a-z0-9]{0,7})>', s):
+        out += re.escape(s[i:m.start()]) + '(?P<%s>[^;{}]+?)' % m.group(1)
+        i = m.end()
+    return out + re.escape(s[i:])
+
+
+def _lift(expr, consts):
+    for a, p in ATOMS:
+        expr = expr.replace(a, p)
+    for a, v in consts.items():
+        expr = expr.replace(a, '(%s)' % v)
+    return expr
+
+
+def gen_leaf_tu():
+    """booster/lib/aio/src/io_service.cpp is callback/container/mutex code, outside the subset of tools/cxx2v.py.  What IS integer
+    code - every guard condition of post / stop / set_event (both overloads) / cancelation_is_needed / set_timer_event /
+    cancel_timer_event / run_one (drain loop, timers loop, stop test, wait time, poll-error throw, final wake), the event-mask
+    arithmetic of the readiness dispatch and of io_event_setter, socket_map::is_valid, and the constants io_events::in/out/err,
+    reactor::use_select/poll/epoll, invalid_socket - is lifted textually from the CURRENT source into a tiny TU (regenerated on every
+    run; atoms that are not identifiers become int parameters, see ATOMS) and translated by cxx2v; coq/C17/Link.v proves every leaf
+    equal to the guard / arithmetic the model uses at that place.  The statements AROUND the lifted expressions are matched as rigid
+    white-space-free templates (a hole per lifted expression): a function that no longer has the statement structure the model was
+    written for is left out of the TU, so the translator reports a broken tie."""
+    os.makedirs(os.path.dirname(LEAF_TU), exist_ok=True)
+    del LEAF_PROBLEMS[:]
+    del LEAF_NAMES[:]
+
+    def rd(rel):
+        try:
+            return open(os.path.join(vlib.REPO, rel)).read()
+        except OSError as e:
+            LEAF_PROBLEMS.append(str(e))
+            return ''
+    src = _strip(rd('booster/lib/aio/src/io_service.cpp'))
+    types_h = _strip(rd('booster/booster/aio/types.h'))
+    reactor_h = _strip(rd('booster/booster/aio/reactor.h'))
+    funcs = []
+
+    def emit(name, params, body):
+        funcs.append('long long %s(%s) { %s }' % (name, ', '.join('long long ' + p for p in params), body))
+        LEAF_NAMES.append(name)
+
+    # ---- constants
+    consts = {}
+    for hdr, cls, names in ((types_h, 'io_events', ('in', 'out', 'err')), (reactor_h, 'reactor', ('use_select', 'use_poll', 'use_epoll'))):
+        for n in names:
+            m = re.search(r'staticconstint%s=([0-9<]+);' % n, hdr)
+            if not m:
+                LEAF_PROBLEMS.append('constant %s::%s not found' % (cls, n))
+                continue
+            if cls == 'io_events':
+                consts['reactor::' + n] = m.group(1)
+                consts['io_events::' + n] = m.group(1)
+            emit('c17_%s' % (('ev_' + n) if cls == 'io_events' else n), [], 'return %s;' % m.group(1))
+    m = re.search(r'staticconstintinvalid_socket=(-?[0-9]+);', types_h)
+    if m:
+        emit('c17_invalid_socket', [], 'return %s;' % m.group(1))
+    else:
+        LEAF_PROBLEMS.append('invalid_socket not found')
+    # reactor and io_events use the same masks (reactor : public io_events)
+    if not re.search(r'classBOOSTER_APIreactor:publicio_events', reactor_h):
+        LEAF_PROBLEMS.append('reactor no longer derives its event masks from io_events')
+
+    def match(what, body, template, leafs):
+        """leafs: list of (leaf name, hole, params)"""
+        m = re.fullmatch(_tmpl(template), body) if body else None
+        if not m:
+            LEAF_PROBLEMS.append('%s does not have the modelled statement structure' % what)
+            return None
+        for name, hole, params in leafs:
+            emit(name, params, 'return %s;' % _lift(m.group(hole), consts))
+        return m
+
+    # ---- post (three overloads), stop
+    for suffix, sig, arg in (('h', r'voidpost\(handlerconst&h\)\{', 'h'),
+                             ('eh', r'voidpost\(event_handlerconst&h,booster::system::error_codeconst&e\)\{', 'h,e'),
+                             ('ioh', r'voidpost\(io_handlerconst&h,booster::system::error_codeconst&e,size_tn\)\{', 'h,e,n')):
+        match('event_loop_impl::post(%s)' % arg, _body(src, sig),
+              'lock_guardl(data_mutex_);dispatch_queue_.push_back(completion_handler(%s));if(<g>)wake();' % arg,
+              [('c17_post_wake_' + suffix, 'g', ['polling_'])])
+    match('event_loop_impl::stop', _body(src, r'voidstop\(\)\{'), 'lock_guardl(data_mutex_);stop_=true;if(<g>)wake();',
+          [('c17_stop_wake', 'g', ['polling_'])])
+    # ---- set_event: generic (io_event_setter) and the io_event_canceler overload
+    defer = 'if(<d>){dispatch_queue_.push_back(completion_handler(f));if(<w>)wake();}else{f();}'
+    match('event_loop_impl::set_event<Functor>', _body(src, r'template<typenameFunctor>voidset_event\(Functor&f\)\{'),
+          'lock_guardl(data_mutex_);' + defer,
+          [('c17_set_defer', 'd', ['polling_', 'reactor_get']), ('c17_set_wake', 'w', ['reactor_get'])])
+    match('event_loop_impl::set_event(io_event_canceler&)', _body(src, r'voidset_event\(io_event_canceler&f\)\{'),
+          'lock_guardl(data_mutex_);if(<s>)return;' + defer,
+          [('c17_cancel_skip', 's', ['needed']), ('c17_cancel_defer', 'd', ['polling_', 'reactor_get']), ('c17_cancel_wake', 'w', ['reactor_get'])])
+    match('io_event_canceler::cancelation_is_needed_with_data_mutex_locked', _body(src, r'boolcancelation_is_needed_with_data_mutex_locked\(\)\{'),
+          'if(<q>)returntrue;io_data&cont=self_->map_[fd];if(<i>){self_->map_.erase(fd);returnfalse;}returntrue;',
+          [('c17_needed_queue', 'q', ['qempty']), ('c17_needed_idle', 'i', ['cur', 'hasrd', 'haswr'])])
+    # io_event_canceler::operator() and io_event_setter::operator(): rigid, with the lifted integer parts
+    match('io_event_canceler::operator()', _body(src, r'voidoperator\(\)\(\)const\{'),
+          'lock_guardl(self_->data_mutex_);io_data&cont=self_->map_[fd];cont.current_event=0;system::error_codee;self_->reactor_->remove(fd,e);'
+          'e=system::error_code(aio_error::canceled,aio_error_cat);if(cont.readable)self_->dispatch_queue_.push_back(completion_handler(cont.readable,e));'
+          'if(cont.writeable)self_->dispatch_queue_.push_back(completion_handler(cont.writeable,e));self_->map_.erase(fd);', [])
+    sb = _body(src, r'event_loop_impl\*self_;voidoperator\(\)\(\)\{')
+    sb = sb.replace('#ifdefBOOSTER_WIN32system::error_codee(WSAEBADF,syscat);#elsesystem::error_codee(EBADF,syscat);#endif', 'system::error_codee(EBADF,syscat);')
+    match('io_event_setter::operator()', sb,
+          'lock_guardl(self_->data_mutex_);if(!self_->map_.is_valid(fd)){system::error_codee(EBADF,syscat);self_->dispatch_queue_.push_back(completion_handler(h,e));return;}'
+          'intnew_event=<n>;system::error_codee;self_->reactor_->select(fd,new_event,e);if(!e){self_->map_[fd].current_event=new_event;'
+          'if(<r>)self_->map_[fd].readable=h;elseself_->map_[fd].writeable=h;}else{self_->dispatch_queue_.push_back(completion_handler(h,e));}',
+          [('c17_setter_new_event', 'n', ['cur', 'event']), ('c17_setter_is_read', 'r', ['event'])])
+    match('socket_map::is_valid', _body(src, r'boolis_valid\(native_typefd\)\{'), 'return<v>;', [('c17_is_valid', 'v', ['fd'])])
+    match('event_loop_impl::set_io_event', _body(src, r'voidset_io_event\(native_typefd,intevent,event_handlerconst&h\)\{'),
+          'if(<b>)throwbooster::invalid_argument("Invalidargumenttoset_io_event");io_event_settersetter={fd,event,h,this};set_event(setter);',
+          [('c17_set_io_bad_event', 'b', ['event'])])
+    match('event_loop_impl::cancel_io_events', _body(src, r'voidcancel_io_events\(native_typefd\)\{'),
+          'if(<b>)return;io_event_cancelercanceler={fd,this};set_event(canceler);', [('c17_cancel_io_skip', 'b', ['fd', 'invalid_socket'])])
+    # ---- timers
+    tb = _body(src, r'intset_timer_event\(ptimepoint,event_handlerconst&h\)\{')
+    m = re.search(_tmpl('timer_events_index_[pos]=timer_events_.insert(ev);break;}if(<g>)wake();returnev.second.event_id;') + '$', tb)
+    if m:
+        emit('c17_timer_wake', ['polling_', 'head', 'point'], 'return %s;' % _lift(m.group('g'), consts))
+    else:
+        LEAF_PROBLEMS.append('event_loop_impl::set_timer_event does not end with the modelled insert / wake / return')
+    match('event_loop_impl::cancel_timer_event', _body(src, r'voidcancel_timer_event\(intevent_id\)\{'),
+          'lock_guardl(data_mutex_);if(<a>)return;timer_events_type::iteratorevptr=timer_events_index_[event_id];'
+          'completion_handlerevdisp(evptr->second.h,system::error_code(aio_error::canceled,aio_error_cat));dispatch_queue_.push_back(evdisp);'
+          'timer_events_.erase(evptr);timer_events_index_[event_id]=timer_events_.end();if(<g>)wake();',
+          [('c17_cancel_timer_absent', 'a', ['slot_free']), ('c17_cancel_timer_wake', 'g', ['polling_'])])
+    # ---- run_one
+    ro = _body(src, r'boolrun_one\(reactor::event\*evs,size_tevs_size\)\{')
+    m = match('event_loop_impl::run_one', ro,
+              'lock_guardl(data_mutex_);if(!reactor_.get()){reactor_.reset(newreactor(reactor_type_));}'
+              'if(interrupter_.open()){reactor_->select(interrupter_.get_fd(),reactor::in);}'
+              'intcounter=dispatch_queue_.size();while(<drain>){completion_handlerexec;exec.swap(dispatch_queue_.front());dispatch_queue_.pop_front();'
+              'data_mutex_.unlock();try{exec();}catch(...){data_mutex_.lock();throw;}data_mutex_.lock();counter--;}'
+              'ptimenow=ptime::now();while(<tloop>){timer_events_type::iteratorevptr=timer_events_.begin();'
+              'timer_events_index_[evptr->second.event_id]=timer_events_.end();completion_handlerdisp(evptr->second.h,system::error_code());'
+              'dispatch_queue_.push_back(disp);timer_events_.erase(evptr);}'
+              'if(<stopret>)returnfalse;ptimewait_time=<w0>;if(<havet>){ptimediff=<diff>;if(<lt>)wait_time=diff;assert(wait_time>=ptime::zero);}'
+              'intn=0;{system::error_codepoll_error;polling_=true;try{data_mutex_.unlock();'
+              'n=reactor_->poll(evs,evs_size,int(ptime::milliseconds(wait_time)),poll_error);}catch(...){data_mutex_.lock();polling_=false;throw;}'
+              'data_mutex_.lock();polling_=false;if(<pthrow>){throwsystem::system_error(poll_error);}}'
+              'if(n>int(evs_size))n=evs_size;randomize_events(evs,n);for(inti=0;i<n&&i<int(evs_size);i++){'
+              'if(evs[i].fd==interrupter_.get_fd()){interrupter_.clean();continue;}usingbooster::system::error_code;io_data&cont=map_[evs[i].fd];'
+              'intnew_events=cont.current_event;error_codedispatch_error;'
+              'if(<eerr>){dispatch_error=error_code(aio_error::select_failed,aio_error_cat);new_events=0;}'
+              'if(<ein>)new_events&=<min>;if(<eout>)new_events&=<mout>;'
+              'error_codeselect_error;reactor_->select(evs[i].fd,new_events,select_error);'
+              'if(select_error){new_events=0;if(!dispatch_error)dispatch_error=select_error;}cont.current_event=new_events;'
+              'if(<firer>){dispatch_queue_.push_back(completion_handler(cont.readable,dispatch_error));}'
+              'if(<firew>){dispatch_queue_.push_back(completion_handler(cont.writeable,dispatch_error));}'
+              'if(<erase>)map_.erase(evs[i].fd);}if(<fwake>){wake();}returntrue;',
+              [('c17_drain', 'drain', ['stop_', 'qempty', 'counter']), ('c17_timers_loop', 'tloop', ['stop_', 'tempty', 'head', 'now']),
+               ('c17_stop_return', 'stopret', ['stop_']), ('c17_poll_throw', 'pthrow', ['poll_error', 'not_eintr', 'qempty']),
+               ('c17_fire_read', 'firer', ['hasrd', 'new_events']), ('c17_fire_write', 'firew', ['haswr', 'new_events']),
+               ('c17_erase', 'erase', ['new_events']), ('c17_final_wake', 'fwake', ['stop_'])])
+    if m:
+        L = lambda h: _lift(m.group(h), consts)
+        emit('c17_wait_time', ['qempty', 'tempty', 'head', 'now'],
+             'long long wait_time = %s; if(%s) { long long diff = %s; if(%s) wait_time = diff; } return wait_time;' % (L('w0'), L('havet'), L('diff'), L('lt')))
+        emit('c17_new_events', ['cur', 'events', 'select_error'],
+             'long long new_events = cur; if(%s) { new_events = 0; } if(%s) new_events &= %s; if(%s) new_events &= %s; if(select_error) { new_events = 0; } return new_events;'
+             % (L('eerr'), L('ein'), L('min'), L('eout'), L('mout')))
+        # 1 = select_failed (reported err), 2 = the reactor's select error, 0 = success
+        emit('c17_dispatch_error', ['events', 'select_error'],
+             'long long dispatch_error = 0; if(%s) { dispatch_error = 1; } if(select_error) { if(!dispatch_error) dispatch_error = 2; } return dispatch_error;' % L('eerr'))
+    # ---- the move: the non-const completion_handler overloads release the stored callback (mechanism named in the property)
+    for ty, rest, tp in (('handler', '', 'op_handler'), ('event_handler', ',booster::system::error_codeconst&ine', 'op_event_handler'),
+                         ('io_handler', ',booster::system::error_codeconst&ine,size_tinn', 'op_io_handler')):
+        if ('completion_handler(%s&inh%s):h(inh.get_pointer().release(),false),' % (ty, rest)) not in src:
+            LEAF_PROBLEMS.append('completion_handler(%s &...) no longer takes ownership of (moves out) the callback' % ty)
+    if _body(src, r'voidreset\(\)\{') != 'dispatch_queue_.clear();map_.clear();stop_=false;reactor_.reset();interrupter_.close();':
+        LEAF_PROBLEMS.append('event_loop_impl::reset does not have the modelled statement list')
+    # ---- src/thread_pool.cpp: worker loop, post, cancel, stop
+    tp = _strip(rd('src/thread_pool.cpp'))
+    ATOMS.insert(0, ('queue_.empty()', 'qempty'))
+    ATOMS.insert(0, ('p->first', 'first'))
+    match('thread_pool::worker', _body(tp, r'voidworker\(\)\{'),
+          'for(;;){booster::function<void()>job;{booster::unique_lock<booster::mutex>lock(mutex_);if(<ex>)return;'
+          'if(<take>){queue_.front().second.swap(job);queue_.pop_front();}else{cond_.wait(lock);}}'
+          'if(job){try{job();}catch(std::exceptionconst&e){BOOSTER_ERROR("cppcms")<<"Catchedexceptioninthreadpool"<<e.what()<<\'\\n\'<<booster::trace(e);}'
+          'catch(...){BOOSTER_ERROR("cppcms")<<"Catchedunknownexceptioninthreadpool";}}}',
+          [('c17_worker_exit', 'ex', ['shut_down_']), ('c17_worker_take', 'take', ['qempty'])])
+    match('thread_pool::cancel', _body(tp, r'boolcancel\(intid\)\{'),
+          'booster::unique_lock<booster::mutex>lock(mutex_);queue_type::iteratorp;for(p=queue_.begin();p!=queue_.end();++p){'
+          'if(<eq>){queue_.erase(p);returntrue;}}returnfalse;', [('c17_cancel_match', 'eq', ['first', 'id'])])
+    match('thread_pool::post', _body(tp, r'intpost\(booster::function<void\(\)>const&job\)\{'),
+          'booster::unique_lock<booster::mutex>lock(mutex_);intid=job_id_++;queue_.push_back(std::make_pair(id,job));cond_.notify_one();returnid;', [])
+    match('thread_pool::stop', _body(tp, r'voidstop\(\)\{'),
+          '{booster::unique_lock<booster::mutex>lock(mutex_);shut_down_=true;cond_.notify_all();}'
+          'for(unsignedi=0;i<workers_.size();i++){booster::shared_ptr<booster::thread>thread=workers_[i];workers_[i].reset();if(thread)thread->join();}', [])
+    del ATOMS[0:2]
+    # ---- booster/lib/aio/src/stream_socket.cpp: async_read_some / async_write_some and their internal handlers
+    ss = _strip(rd('booster/lib/aio/src/stream_socket.cpp'))
+    ATOMS.insert(0, ('basic_io_device::would_block(err)', 'wb'))
+    ATOMS.insert(1, ('would_block(e)', 'wb'))
+    for nm, rw, arm, bt in (('reader', 'read', 'on_readable', 'mutable_buffer'), ('writer', 'write', 'on_writeable', 'const_buffer')):
+        st_body = _body(ss, r'struct%s_some:publicbooster::callable<void\(system::error_codeconst&e\)>\{' % nm)
+        match('%s_some::operator()' % nm, _body(st_body, r'voidoperator\(\)\(system::error_codeconst&e\)\{'),
+              'if(<f>){h(e,0);}else{system::error_codeerr;size_tn=sock->%s_some(buf,err);if(<a>)sock->%s(pointer(this));elseh(err,n);}' % (rw, arm),
+              [('c17_%s_failed' % nm, 'f', ['e']), ('c17_%s_again' % nm, 'a', ['n', 'err', 'wb'])])
+        match('stream_socket::async_%s_some' % rw, _body(ss, r'voidstream_socket::async_%s_some\(%sconst&buffer,io_handlerconst&h\)\{' % (rw, bt)),
+              'if(!dont_block(h))return;#ifdefBOOSTER_AIO_FORCE_POLL%s_some::pointer%s(new%s_some(h,buffer,this));%s(%s);#else'
+              'system::error_codee;size_tn=%s_some(buffer,e);if(<w>){%s_some::pointer%s(new%s_some(h,buffer,this));%s(%s);}'
+              'else{get_io_service().post(h,e,n);}#endif' % (nm, nm, nm, arm, nm, rw, nm, nm, nm, arm, nm),
+              [('c17_%s_start_wait' % rw, 'w', ['e', 'wb'])])
+    ATOMS.insert(0, ('basic_io_device::would_block(e)', 'wb'))
+    ATOMS.insert(0, ('buffer.bytes_count()', 'total'))
+    ATOMS.insert(0, ('buf.empty()', 'bufempty'))
+    for nm, rw, arm in (('reader', 'read', 'on_readable'), ('writer', 'write', 'on_writeable')):
+        st_body = _body(ss, r'struct%s_all:publiccallable<void\(system::error_codeconst&e\)>\{' % nm)
+        match('%s_all::run' % nm, _body(st_body, r'voidrun\(\)\{'),
+              '#ifdefBOOSTER_AIO_FORCE_POLLself->%s(intrusive_ptr<%s_all>(this));#elsesystem::error_codee;size_tn=self->%s_some(buf,e);count+=n;buf+=n;'
+              'if(<d>){self->get_io_service().post(h,e,count);}else{self->%s(intrusive_ptr<%s_all>(this));}#endif' % (arm, nm, rw, arm, nm),
+              [('c17_%s_all_start_done' % nm, 'd', ['bufempty', 'e', 'wb'])])
+        match('%s_all::operator()' % nm, _body(st_body, r'voidoperator\(\)\(system::error_codeconst&e\)\{'),
+              'if(<f>){h(e,count);}else{system::error_codeerr;size_tn=self->%s_some(buf,err);count+=n;buf+=n;'
+              'if(<d>){h(err,count);}else{self->%s(intrusive_ptr<%s_all>(this));}}' % (rw, arm, nm),
+              [('c17_%s_all_failed' % nm, 'f', ['e']), ('c17_%s_all_done' % nm, 'd', ['bufempty', 'err', 'wb'])])
+    match('stream_socket::async_read', _body(ss, r'voidstream_socket::async_read\(mutable_bufferconst&buffer,io_handlerconst&h\)\{'),
+          'if(!dont_block(h))return;reader_all::pointerr(newreader_all(this,buffer,h));r->run();', [])
+    match('stream_socket::async_write', _body(ss, r'voidstream_socket::async_write\(const_bufferconst&buffer,io_handlerconst&h\)\{'),
+          'if(!dont_block(h))return;#ifdefBOOSTER_AIO_FORCE_POLLwriter_all::pointerr(newwriter_all(this,buffer,0,h));r->run();#else'
+          'system::error_codee;size_tn=write_some(buffer,e);if(<w>){writer_all::pointerr(newwriter_all(this,buffer,n,h));r->run();}'
+          'else{get_io_service().post(h,e,n);}#endif', [('c17_write_all_continue', 'w', ['e', 'n', 'total', 'wb'])])
+    del ATOMS[0:5]
+    # basic_io_device: close() cancels the outstanding waits before the descriptor is closed; on_readable/on_writeable/cancel forward to the loop
+    bd = _strip(rd('booster/lib/aio/src/basic_io_device.cpp'))
+    if _body(bd, r'voidbasic_io_device::close\(system::error_code&e\)\{') != \
+            'if(fd_==invalid_socket)return;if(has_io_service())cancel();if(!owner_)return;if(close_file_descriptor(fd_))e=geterror();fd_=invalid_socket;nonblocking_was_set_=false;':
+        LEAF_PROBLEMS.append('basic_io_device::close(error_code&) does not have the modelled statement list (cancel the waits, then close)')
+    for fn, body in (('on_readable\(event_handlerconst&h\)', 'get_io_service().set_io_event(fd_,io_service::in,h);'),
+                     ('on_writeable\(event_handlerconst&h\)', 'get_io_service().set_io_event(fd_,io_service::out,h);'),
+                     ('cancel\(\)', 'get_io_service().cancel_io_events(fd_);')):
+        if _body(bd, r'voidbasic_io_device::%s\{' % fn) != body:
+            LEAF_PROBLEMS.append('basic_io_device::%s does not forward to the event loop as modelled' % fn.split('\\')[0])
+    # deadline_timer: async_wait arms the loop timer with an internal handler that clears the id and calls the user handler once;
+    # cancel() cancels that id once
+    dt = _strip(rd('booster/lib/aio/src/deadline_timer.cpp'))
+    for what, head, body in (
+            ('deadline_timer::waiter::operator()', r'structdeadline_timer::waiter:publicbooster::callable<void\(system::error_codeconst&e\)>\{event_handlerh;deadline_timer\*self;voidoperator\(\)\(system::error_codeconst&e\)\{',
+             'self->event_id_=-1;h(e);'),
+            ('deadline_timer::async_wait', r'voiddeadline_timer::async_wait\(event_handlerconst&h\)\{',
+             'std::unique_ptr<waiter>wt(newwaiter);wt->h=h;wt->self=this;event_id_=get_io_service().set_timer_event(deadline_,std::move(wt));'),
+            ('deadline_timer::cancel', r'voiddeadline_timer::cancel\(\)\{',
+             'if(event_id_!=-1){inttmp_id=event_id_;event_id_=-1;get_io_service().cancel_timer_event(tmp_id);}')):
+        if _body(dt, head) != body:
+            LEAF_PROBLEMS.append('%s does not have the modelled statement list' % what)
+    # select_interrupter: notify() writes one byte to the self-pipe (retrying on EINTR), clean() reads from it (level-triggered: what is
+    # left keeps the pipe readable, so it can only cause additional wake-ups) - the model abstracts the pipe to the `woken` bit
+    si = _strip(rd('booster/lib/aio/src/select_iterrupter.cpp'))
+    for what, head, body in (
+            ('select_interrupter::notify', r'voidselect_interrupter::notify\(\)\{',
+             "#ifdefBOOSTER_WIN32charc='A';::send(write_,&c,1,0);#elsefor(;;){charc='A';if(::write(write_,&c,1)<0&&errno==EINTR)continue;break;}#endif"),
+            ('select_interrupter::clean', r'voidselect_interrupter::clean\(\)\{',
+             'intn;staticcharbuffer[64];#ifdefBOOSTER_WIN32n=::recv(read_,buffer,sizeof(buffer),0);#elsen=::read(read_,buffer,sizeof(buffer));#endif(void)(n);')):
+        if _body(si, head) != body:
+            LEAF_PROBLEMS.append('%s does not have the modelled statement list' % what)
+    txt = '// generated by checks/C17.py (gen_leaf_tu) from booster/lib/aio/src/io_service.cpp, booster/aio/types.h, reactor.h -- do not edit\n'
+    txt += '\n'.join(funcs) + '\n'
+    vlib.write_if_changed(LEAF_TU, txt)
+    return LEAF_TU
+
+
+LEAF_ALL = ['c17_ev_in', 'c17_ev_out', 'c17_ev_err', 'c17_use_select', 'c17_use_poll', 'c17_use_epoll', 'c17_invalid_socket',
+            'c17_post_wake_h', 'c17_post_wake_eh', 'c17_post_wake_ioh', 'c17_stop_wake', 'c17_set_defer', 'c17_set_wake',
+            'c17_cancel_skip', 'c17_cancel_defer', 'c17_cancel_wake', 'c17_needed_queue', 'c17_needed_idle',
+            'c17_setter_new_event', 'c17_setter_is_read', 'c17_is_valid', 'c17_set_io_bad_event', 'c17_cancel_io_skip',
+            'c17_timer_wake', 'c17_cancel_timer_absent', 'c17_cancel_timer_wake',
+            'c17_drain', 'c17_timers_loop', 'c17_stop_return', 'c17_poll_throw', 'c17_fire_read', 'c17_fire_write', 'c17_erase',
+            'c17_final_wake', 'c17_wait_time', 'c17_new_events', 'c17_dispatch_error',
+            'c17_worker_exit', 'c17_worker_take', 'c17_cancel_match',
+            'c17_reader_failed', 'c17_reader_again', 'c17_read_start_wait', 'c17_writer_failed', 'c17_writer_again', 'c17_write_start_wait',
+            'c17_reader_all_start_done', 'c17_reader_all_failed', 'c17_reader_all_done', 'c17_writer_all_start_done', 'c17_writer_all_failed',
+            'c17_writer_all_done', 'c17_write_all_continue']
+
+GEN = {
+    # guards, event-mask arithmetic and constants of event_loop_impl, see gen_leaf_tu()
+    'Gen_C17_loop': dict(src=gen_leaf_tu(), incs=[], functions=[(n, 'g_' + n) for n in LEAF_ALL]),
+}
 F1 = 'lost-wakeup-interrupter-fd-number-reused'
 F2 = 'inplace-cancel-overtakes-queued-arm'
 
@@ -75,7 +417,15 @@ class LoopGen:
                 return []
             self.used.add((f, d))
         k = self.new()
-        out = ['I' if d == 'i' else 'O', str(k), str(f)]
+        # a plain wait (on_readable / on_writeable) or the composite operation built on it (async_read_some / async_write_some)
+        r = self.rng.random()
+        if r < 0.3:
+            out = ['RS' if d == 'i' else 'WS', str(k), str(f)]
+        elif r < 0.45:
+            # async_read / async_write of n bytes (reader_all / writer_all): the peer writes one byte per W
+            out = ['RA' if d == 'i' else 'WA', str(k), str(f), str(self.rng.choice([1, 2, 2, 3]))]
+        else:
+            out = ['I' if d == 'i' else 'O', str(k), str(f)]
         if not self.batch:
             self.maybe_body(k, depth, chain=(f, d))
         return out
@@ -154,11 +504,98 @@ def gen_loop_case(rng, reactor=None, mode=None, stop=None):
     return 'loop %s %s%s %d %s' % (reactor, pick, mode, g.nfd, ' '.join(toks))
 
 
+def gen_timer_case(rng):
+    """aimed at the case split of no_sleep_past_a_deadline / set_timer_event: a timer armed while the loop polls that is earlier than,
+    equal to, or later than the earliest armed one (only the first two must wake the loop), a cancel of the earliest while polling,
+    a timer already due when armed, the clock advanced by the other thread, equal deadlines"""
+    tm = rng.choice('TU')
+    k = [0]
+
+    def new():
+        k[0] += 1
+        return k[0]
+    d1 = rng.choice([3, 20, 20, 50])
+    ph0 = [tm, str(new()), str(d1)]
+    first = k[0]
+    if rng.random() < 0.3:
+        ph0 += [tm, str(new()), str(d1 + rng.choice([0, 1, 30]))]
+    if rng.random() < 0.3:
+        ph0 += ['P', str(new())]
+    phases = [ph0]
+    bodies = []
+    for _ in range(rng.randrange(1, 4)):
+        ph = []
+        for _ in range(rng.randrange(1, 4)):
+            r = rng.random()
+            if r < 0.6:
+                kk = new()
+                ph += [tm, str(kk), str(rng.choice([d1 - 1, d1, d1 + 1, d1 - 3, 0, -5, 1, 2, d1 + 40]))]
+                if rng.random() < 0.25:
+                    bodies.append((kk, [tm, str(new()), str(rng.choice([0, 1, 5]))]))
+            elif r < 0.75:
+                ph += ['CT', str(rng.choice([first, max(1, k[0])]))]
+            elif r < 0.9:
+                ph += ['A', str(rng.choice([1, d1 - 1, d1, d1 + 1]))]
+            else:
+                ph += ['P', str(new())]
+        phases.append(ph)
+    toks = []
+    for i, p in enumerate(phases):
+        if i:
+            toks.append('/')
+        toks += p
+    for kk, ops in bodies:
+        toks += ['[', str(kk)] + ops + [']']
+    return '%ss 1 %s' % (rng.choice('lh'), ' '.join(toks))
+
+
+def gen_spurious_case(rng):
+    """aimed at the would-block branch of the internal handlers (reader_some / writer_some / reader_all / writer_all) and at stale events:
+    a wait is satisfied (the event is reported and the internal handler queued) but a handler queued before it takes the data away /
+    refills the send buffer, so the transfer would block again and the operation has to wait again - then it is completed, cancelled,
+    closed or hit by a hang-up"""
+    k = [0]
+
+    def new():
+        k[0] += 1
+        return k[0]
+    rd = rng.random() < 0.6
+    op = rng.choice(['RS', 'RA', 'I'] if rd else ['WS', 'WA', 'O'])
+    u = new()
+    arm = [op, str(u), '0'] + ([str(rng.choice([1, 2, 3]))] if op in ('RA', 'WA') else [])
+    ph0 = ([] if rd else ['F', '0']) + arm
+    thief = new()
+    ph1 = ['P', str(thief)] + (['W', '0'] * rng.choice([1, 1, 2, 3]) if rd else ['D', '0'])
+    bodies = [(thief, ['R', '0'] if rd else ['F', '0'])]
+    if rng.random() < 0.3:
+        ph1 = ph1[2:] + ph1[:2]          # the post after the event source: the thief runs after the completion instead
+    end = rng.choice(['data', 'data', 'cancel', 'close', 'hup', 'none'])
+    ph2 = {'data': (['W', '0'] * rng.choice([1, 2, 3]) if rd else ['D', '0']), 'cancel': ['CF', '0'], 'close': ['CL', '0'], 'hup': ['K', '0'], 'none': []}[end]
+    phases = [ph0, ph1, ph2]
+    if rng.random() < 0.4:
+        phases.insert(1, [])
+    if rng.random() < 0.3 and op in ('RS', 'WS', 'RA', 'WA'):
+        # the user handler starts the next operation on the same descriptor
+        nxt = new()
+        bodies.append((u, [op, str(nxt), '0'] + ([str(rng.choice([1, 2]))] if op in ('RA', 'WA') else [])))
+    toks = []
+    for i, p in enumerate(phases):
+        if i:
+            toks.append('/')
+        toks += p
+    for kk, ops in bodies:
+        toks += ['[', str(kk)] + ops + [']']
+    return '%ss 1 %s' % (rng.choice('lh'), ' '.join(toks))
+
+
 def gen_pool_case(rng):
     n = rng.randrange(1, 14)
     toks = []
     k = 0
     posted, gates_closed, stopped = [], [], False
+    # a third of the scripts call stop() at any time, also while a gate job is running (stop() then blocks until the gate opens)
+    # and go on posting / cancelling / opening gates afterwards; the others stop only while the worker is idle, or never
+    wild = rng.random() < 0.35
     for _ in range(n):
         r = rng.random()
         if r < 0.5 or not posted:
@@ -170,15 +607,48 @@ def gen_pool_case(rng):
                 gates_closed.append(k)
         elif r < 0.8:
             toks += ['C', str(rng.choice(posted + [k + 5]))]
-        elif r < 0.95:
+        elif r < (0.9 if wild else 0.95):
             g = rng.choice(gates_closed) if gates_closed and rng.random() < 0.8 else rng.choice(posted)
             toks += ['G', str(g)]
             if g in gates_closed:
                 gates_closed.remove(g)
-        elif not gates_closed and not stopped:
-            # stop only while no gate can be blocking the worker (stop() joins the worker)
+        elif (wild or not gates_closed) and (not stopped or rng.random() < 0.2):
             toks += ['S']
             stopped = True
+    return 'pool ' + ' '.join(toks)
+
+
+def gen_pool_stop_case(rng):
+    """aimed at stop(): jobs queued behind a running (gate) job when stop() is called, a throwing job right before it, posts and
+    cancels after stop(), the gate opened after stop()"""
+    toks, k = [], 0
+    for _ in range(rng.randrange(0, 3)):
+        k += 1
+        toks += ['P', str(k), str(rng.choice([0, 1, 2]))]
+    gate = None
+    if rng.random() < 0.8:
+        k += 1
+        gate = k
+        toks += ['P', str(k), '3']
+        for _ in range(rng.randrange(0, 4)):
+            k += 1
+            toks += ['P', str(k), str(rng.choice([0, 0, 1, 2, 3]))]
+        if rng.random() < 0.3:
+            toks += ['C', str(rng.randrange(1, k + 1))]
+        if rng.random() < 0.25:
+            toks += ['G', str(gate)]
+    toks += ['S']
+    for _ in range(rng.randrange(0, 4)):
+        r = rng.random()
+        if r < 0.45:
+            k += 1
+            toks += ['P', str(k), str(rng.choice([0, 1, 3]))]
+        elif r < 0.7:
+            toks += ['C', str(rng.randrange(1, k + 2))]
+        elif r < 0.9 and gate:
+            toks += ['G', str(gate)]
+        else:
+            toks += ['S']
     return 'pool ' + ' '.join(toks)
 
 
@@ -187,10 +657,22 @@ def gen_cases(ctx):
     cases = []
     for _ in range(ctx.scale(300, 3000)):
         cases.append(gen_pool_case(rng))
+    for _ in range(ctx.scale(200, 2000)):
+        cases.append(gen_pool_stop_case(rng))
     for i in range(ctx.scale(3, 20)):
         cases.append('pstress %d %d %d %d' % (rng.randrange(1 << 30), rng.choice([1, 2, 4]), rng.choice([2, 3, 4]), ctx.scale(150, 600)))
+    for i in range(ctx.scale(6, 40)):
+        cases.append('pstop %d %d %d %d' % (rng.randrange(1 << 30), rng.choice([1, 2, 4]), rng.choice([2, 3, 4]), ctx.scale(100, 400)))
     for i in range(ctx.scale(6, 60)):
         cases.append('lstress %d %s %d %d' % (rng.randrange(1 << 30), 'eps'[i % 3], rng.choice([2, 3, 4]), ctx.scale(400, 2000)))
+    for _ in range(ctx.scale(150, 3000)):
+        c = gen_timer_case(rng)
+        for r in 'eps':
+            cases.append('loop %s %s' % (r, c))
+    for _ in range(ctx.scale(100, 2000)):
+        c = gen_spurious_case(rng)
+        for r in 'eps':
+            cases.append('loop %s %s' % (r, c))
     n = ctx.scale(1500, 30000)
     for _ in range(n):
         c = gen_loop_case(rng)
@@ -221,6 +703,10 @@ def oracle(case, out):
         if out != 'pstress ok':
             return ('pool-stress-' + (out.split() + ['?', '?'])[1], 'concurrent post/cancel against the real thread_pool: ' + out)
         return None
+    if op == 'pstop':
+        if out != 'pstop ok':
+            return ('pool-stop-stress-' + (out.split() + ['?', '?'])[1], 'stop() racing with post()/cancel() against the real thread_pool: ' + out)
+        return None
     if op == 'lstress':
         if out != 'lstress ok':
             return ('loop-stress-' + (out.split() + ['?', '?'])[1], 'concurrent producers against a running io_service: ' + out)
@@ -229,13 +715,17 @@ def oracle(case, out):
 
 
 def oracle_pool(c, out):
-    m = re.fullmatch(r'pool run=(\S+) cancel=(\S+) flags=(\S+)', out)
+    m = re.fullmatch(r'pool run=(\S+) cancel=(\S+) stop=(\S+) flags=(\S+)', out)
     if not m:
         return ('bad-output-pool', 'unexpected harness answer ' + out[:200])
-    run, cres, flags = parse_list(m.group(1)), parse_list(m.group(2)), parse_list(m.group(3))
+    run, cres, flags = parse_list(m.group(1)), parse_list(m.group(2)), parse_list(m.group(4))
+    nstop = None if m.group(3) == '-' else int(m.group(3))
     for f in flags:
         if f == 'HANG':
-            return ('pool-hang', 'the worker did not take a queued job / did not come back after a job (an exception killed it?)')
+            return ('pool-hang', 'the worker did not take a queued job / did not come back after a job (an exception killed it?), or stop() '
+                    'did not return after the running job had finished')
+        if f == 'EARLYSTOP':
+            return ('stop-returned-while-job-running', 'thread_pool::stop() returned although the body of a job was still running')
         return ('harness-' + f, 'harness problem ' + f)
     # what the script did, in order
     posted, stop_at, ops = {}, None, []
@@ -251,6 +741,8 @@ def oracle_pool(c, out):
             if stop_at is None:
                 stop_at = len(ops)
             ops.append(('S', None)); i += 1
+    if (stop_at is None) != (nstop is None):
+        return ('bad-output-pool', 'stop count does not fit the script: ' + out[:200])
     cnt = {}
     for k in run:
         cnt[k] = cnt.get(k, 0) + 1
@@ -267,13 +759,24 @@ def oracle_pool(c, out):
             cancelled.add(k)
             if k in cnt:
                 return ('cancelled-job-ran', 'cancel returned true for job %s but it ran' % k)
+    if nstop is not None and len(run) > nstop:
+        k = run[nstop]
+        if posted[k][0] > stop_at:
+            return ('job-ran-after-stop', 'job %s was posted after stop() had been called and ran' % k)
+        return ('job-started-after-stop', 'job %s was still queued when stop() was called and was started afterwards' % k)
+    # the job that was running (blocked in its gate) when stop() was called: jobs queued behind it need not run
+    blocking = None
+    if nstop:
+        last = run[nstop - 1]
+        opened = any(o == ('G', last) for o in ops[:stop_at])
+        if posted[last][1] == 3 and not opened:
+            blocking = last
     for k, (pos, kind) in posted.items():
         before_stop = stop_at is None or pos < stop_at
-        if before_stop and k not in cancelled and k not in cnt:
-            return ('job-never-ran', 'job %s was posted to a running pool, never cancelled, and never ran (an exception escaping '
-                    'an earlier job must not stop the worker)' % k)
-        if not before_stop and k in cnt:
-            return ('job-ran-after-stop', 'job %s was posted after stop() returned and ran' % k)
+        must = before_stop and (blocking is None or pos <= posted[blocking][0])
+        if must and k not in cancelled and k not in cnt:
+            return ('job-never-ran', 'job %s was posted to a running pool with nothing blocking the worker, never cancelled, and never ran '
+                    '(an exception escaping an earlier job must not stop the worker)' % k)
     return None
 
 
@@ -290,6 +793,12 @@ def oracle_loop(c, out):
         if f.startswith('EXC') and special == 'q':
             return (F2, 'io_service::run() threw %s: a handler closed the descriptor in place while a deferred arm for it was still queued; '
                     'the arm then registered a closed descriptor with the select reactor' % f)
+        if f == 'SLEPTPAST' and special == 'r':
+            return (F1, 'the loop slept beyond the deadline of an armed timer: the interrupter pipe got the number of a descriptor closed before '
+                    'the loop first ran and the deferred canceler of that descriptor unregistered the interrupter, so set_timer_event could not wake the loop')
+        if f == 'SLEPTPAST':
+            return ('timer-overslept', 'the loop went to sleep in the reactor for longer than the time left to the deadline of an armed timer '
+                    '(poll timeout computed wrongly, or a timer armed as the new earliest while polling did not wake the loop)')
         if f == 'LOSTWAKE':
             return ('lost-wakeup', 'the loop went to sleep for ever although a posted handler was waiting in the dispatch queue')
         if f == 'OVERRUN':
@@ -308,10 +817,10 @@ def oracle_loop(c, out):
     cnt = {}
     last_t = 0
     for e in log:
-        mm = re.fullmatch(r'(\d+):(\w+)@(\d+)', e)
+        mm = re.fullmatch(r'(\d+):(\w+)(?:/(\d+))?@(\d+)', e)
         if not mm:
             return ('bad-output-loop', 'bad log entry ' + e)
-        k, code, t = mm.group(1), mm.group(2), int(mm.group(3))
+        k, code, nbytes, t = mm.group(1), mm.group(2), mm.group(3), int(mm.group(4))
         if k not in kinds:
             return ('unknown-handler-ran', 'a handler ran that was never submitted: ' + e)
         cnt[k] = cnt.get(k, 0) + 1
@@ -333,6 +842,21 @@ def oracle_loop(c, out):
                     return ('timer-early', 'timer handler %s ran with success at %d before its deadline %s' % (k, t, v[1:]))
             elif code != 'can':
                 return ('timer-bad-code', 'timer handler %s completed with %s' % (k, code))
+        elif v[0] in 'RW':
+            # async_read / async_write of n bytes: success only with all n bytes, failure (eof, EPIPE, cancel, ...) with fewer
+            want = int(v.split('.')[1])
+            allowed = ('ok', 'can', 'self', 'sys9', 'eof') if v[0] == 'R' else ('ok', 'can', 'self', 'sys9', 'sys32')
+            if code not in allowed or nbytes is None:
+                return ('xfer-bad-code', 'async_%s handler %s completed with %s' % ('read' if v[0] == 'R' else 'write', k, e))
+            if (code == 'ok') != (int(nbytes) == want) or int(nbytes) > want:
+                return ('xfer-bad-count', 'async_%s of %d bytes: handler %s completed with %s and %s bytes' % ('read' if v[0] == 'R' else 'write', want, k, code, nbytes))
+        elif v[0] == 'r':
+            # async_read_some: data, end of file, cancel/close, the reactor's error, bad descriptor
+            if code not in ('ok', 'can', 'self', 'sys9', 'eof'):
+                return ('read-bad-code', 'async_read_some handler %s completed with %s' % (k, code))
+        elif v[0] == 'w':
+            if code not in ('ok', 'can', 'self', 'sys9', 'sys32'):
+                return ('write-bad-code', 'async_write_some handler %s completed with %s' % (k, code))
         else:
             if code not in ('ok', 'can', 'self', 'sys9'):
                 return ('io-bad-code', 'io handler %s completed with %s' % (k, code))
@@ -367,29 +891,44 @@ def classify(case, out):
         if ':can@' in out: feats.append('canceled')
         if ':self@' in out: feats.append('selfail')
         if ':sys9@' in out: feats.append('ebadf')
+        if ':eof@' in out: feats.append('eof')
+        if ':sys32@' in out: feats.append('epipe')
+        if ' RS ' in case or ' WS ' in case: feats.append('xfer')
+        if ' RA ' in case or ' WA ' in case: feats.append('xferall')
         return 'loop:%s:%s:%s' % (c[1], c[2][1:2], '+'.join(feats) or 'plain')
     if c[0] == 'pool':
-        return 'pool:' + ('stop' if 'S' in c else 'run') + (':cancel1' if ':1' in out else '') + (':exc' if re.search(r'P \d+ [12]', case) else '')
+        return 'pool:' + (('stop-busy' if re.search(r'stop=[1-9]', out) and 'S' in c and c.index('S') < len(c) - 1 else 'stop') if 'S' in c else 'run') + (':cancel1' if ':1' in out else '') + (':exc' if re.search(r'P \d+ [12]', case) else '')
     return c[0]
 
 
 def run(ctx):
+    GEN['Gen_C17_loop']['src'] = gen_leaf_tu()      # lift again from the tree under test
+    for pr in LEAF_PROBLEMS:
+        ctx.broke('tie to source broken: ' + pr, 'checks/C17.py gen_leaf_tu: the statement structure around a lifted guard changed')
     errs = vlib.gen_coq(GEN)
     for n, e in errs:
         ctx.broke('translator cxx2v failed on %s (tie to source broken)' % n, e)
-    res = vlib.coq_props('C17')
+    res = vlib.coq_props('C17', extra_files=['C17/Link.v'])
     ctx.proof(res)
     ctx.coverage['trusted_base'] = [
         'Coq 8.16.1 kernel',
         'extraction: ExtrOcamlBasic only, OCaml 4.13.1',
-        'hand model of booster/lib/aio/src/io_service.cpp (event_loop_impl) and src/thread_pool.cpp in coq/C17/Defs.v, tied by correspondence only',
+        'tools/cxx2v.py + clang JSON AST on the lifted-leaf TU .work/C17/C17_leafs.cpp; checks/C17.py gen_leaf_tu (textual lifting of guard '
+        'expressions, atom -> parameter table, rigid white-space-free statement templates around them)',
+        'hand model of the control flow of booster/lib/aio/src/io_service.cpp (event_loop_impl), stream_socket.cpp (async_*_some, reader_some, '
+        'writer_some) and src/thread_pool.cpp in coq/C17/Defs.v / CompDefs.v, tied by correspondence',
         'harness/C17_loop.cpp (virtual clock = interposed gettimeofday; interposed poll/epoll_wait/select that run script phases at the '
-        'unlocked polling point, report one ready descriptor per poll and advance the virtual clock instead of sleeping), harness/C17_pool.cpp, '
+        'unlocked polling point, report one ready descriptor per poll and advance the virtual clock instead of sleeping; interposed writev so '
+        'that the peer consumes what the library writes), harness/C17_pool.cpp (interposed pthread_join to see stop() reach its join), '
         'ocaml/C17_driver.ml, checks/C17.py (generators, oracle)',
         'booster::recursive_mutex / booster::mutex really serialise the critical sections (pthread)']
     ctx.assumptions = ['one step of the model = one critical section of the code (atomicity provided by data_mutex_ / mutex_)',
                        'API contract: at most one outstanding wait per (descriptor, direction); io_service::reset() only while no thread runs the loop',
-                       'the OS reports readiness of a registered descriptor eventually and the self-pipe write makes the reactor return (model: woken bit)']
+                       'the OS reports readiness of a registered descriptor eventually and the self-pipe write makes the reactor return (model: woken bit)',
+                       'progress theorems: queued_handler_runs_whatever_other_threads_do and due_timer_*_whatever_other_threads_do hold under arbitrary '
+                       'interference by other threads except stop/reset (and the cancel of that timer); queued_handler_runs_in_next_run_one, '
+                       'due_timer_queued_by_next_run_one, due_timer_fires_after_wakeup, cancel_io_invokes_*, running_pool_runs_every_queued_job_fifo are '
+                       'for a loop thread / worker that is not disturbed during the run_one calls considered; the safety invariants hold for every interleaving']
     exe, err = vlib.build_harness('C17_loop', ['C17_loop.cpp', 'C17_pool.cpp'], extra=['-rdynamic'])
     if not exe:
         ctx.broke('harness build failed', err)
@@ -404,14 +943,16 @@ def run(ctx):
     ctx.coverage['rule'] = (
         'cases are scripts. loop <reactor e|p|s> <pick l|h + mode s|d (+ r|q for the two known findings)> <nfd> phase0 / phase1 / ... '
         '[ k body ] ...: operations P post, T/U arm deadline_timer / raw timer (relative deadline, may be 0 or negative), CT cancel timer, '
-        'I/O wait readable/writable on socketpair f (stream_socket::on_readable/on_writeable), CF cancel, CL close, W/R/F/D/K make the peer '
+        'I/O wait readable/writable on socketpair f (stream_socket::on_readable/on_writeable), RS/WS stream_socket::async_read_some/async_write_some '
+        '(user handler checked for a positive byte count on success and 0 on failure), CF cancel, CL close, W/R/F/D/K make the peer '
         'write / read / fill / drain / hang up, A advance the virtual clock, X stop (+reset and run again). Phase 0 runs before the loop '
         '(no reactor: deferred), phase i runs inside the i-th reactor poll (other-thread path: deferred + self-pipe wake-up), a body runs '
         'inside handler k (in-place path). Every random script is run under epoll, poll and select. Mode s scripts keep at most one '
         'outstanding wait per (descriptor,direction) and are checked for exactly-once; mode d scripts arm freely (double arms drop '
         'handlers) and scripts with X lose queued handlers in reset(): those are checked for at-most-once. pool <ops>: P post (normal, '
-        'throwing std::exception, throwing int, gate), C cancel, G open gate, S stop against a real 1-worker thread_pool; pstress: real '
-        'producer threads against 1..4 workers. Non-trivial: a loop script in which at least 3 handlers ran; a pool script with a cancel '
+        'throwing std::exception, throwing int, gate), C cancel, G open gate, S stop (also while a gate job is running: stop() is then called '
+        'from a helper thread and must not return before the gate opens; posts/cancels after it) against a real 1-worker thread_pool; pstress: real '
+        'producer threads against 1..4 workers; pstop: the same with stop() called while the producers are posting. Non-trivial: a loop script in which at least 3 handlers ran; a pool script with a cancel '
         'and more than 2 operations; distinct = distinct case lines.')
     ctx.coverage['exhaustive'] = False
     ctx.coverage['reactors'] = ['epoll', 'poll', 'select']
@@ -422,7 +963,7 @@ def run(ctx):
         m = re.fullmatch(r'(loop sub=(\S+) log=)(\S+)( flags=\S+ mode=a\S*)', line)
         if not m or m.group(3) == '-':
             return line
-        io = set(x.split(':')[0] for x in m.group(2).split(',') if x.split(':')[1][0] in 'io') if m.group(2) != '-' else set()
+        io = set(x.split(':')[0] for x in m.group(2).split(',') if x.split(':')[1][0] in 'iorwRW') if m.group(2) != '-' else set()
         out, run = [], []
         for e in m.group(3).split(','):
             k, t = e.split(':')[0], e.split('@')[1]
@@ -439,7 +980,8 @@ def run(ctx):
     def canon_case(c, a):
         a = canon_batch(a)
         # finding 1 replays: the model (faithful to the bookkeeping, which knows no descriptor numbers) does not lose the wake-up
-        if c.split()[2][2:3] == 'r':
+        cc = c.split()
+        if cc[0] == 'loop' and len(cc) > 2 and cc[2][2:3] == 'r':
             return a.replace('flags=LOSTWAKE', 'flags=-')
         return a
     vlib.differential(ctx, cases, exe, mexe, oracle, nontrivial, classify, canon_case=canon_case, canon_model=canon_batch)
